@@ -39,8 +39,10 @@ inductive ModeE where
   deriving DecidableEq, Repr
 
 inductive Op where
-  /-- `fi, err := os.Stat(path)` -/
+  /-- `fi, err := os.Stat(path)` (follows a symbolic link) -/
   | stat
+  /-- `fi, err := os.Lstat(path)` (describes the symbolic link itself if `path` is one) -/
+  | lstat
   /-- `os.CreateTemp(dir(path), base(path))`: fresh name, `O_RDWR|O_CREAT|O_EXCL`, mode -/
   | createTemp (mode : Nat)
   /-- open for writing (`os.OpenFile`, `os.Create`, the open inside `os.WriteFile`) -/
@@ -67,6 +69,10 @@ structure St where
   fd : Option (Loc × Nat)
   perm : Option Nat
   umask : Nat
+  /-- `some m`: the name `path` is a symbolic link whose own mode is `m` (0777 on Linux);
+  `path` below is then the file the link resolves to (content reachable through the path, mode of
+  the file holding it).  Renaming over `path` / removing `path` replaces / removes the link. -/
+  link : Option Nat
   deriving DecidableEq, Repr
 
 def Ref.loc : Ref → Loc
@@ -122,6 +128,13 @@ def apply (data : Bytes) : Op → St → St
     match s.path with
     | some f => { s with perm := some f.mode }
     | none => s
+  | .lstat, s =>
+    match s.link with
+    | some m => { s with perm := some m }
+    | none =>
+      match s.path with
+      | some f => { s with perm := some f.mode }
+      | none => s
   | .createTemp m, s =>
     { s with tmp := some ⟨[], createMode s.umask m⟩, fd := some (.atTmp, 0) }
   | .openW r creat excl trunc m, s =>
@@ -169,6 +182,14 @@ def apply (data : Bytes) : Op → St → St
           else s1
         | none => s1
 
+/-- `apply` plus the effect on the symbolic-link node: a rename onto `path` (and a removal of
+`path`) replaces (removes) the link itself, so afterwards `path` is not a link any more. -/
+def applyL (data : Bytes) (o : Op) (s : St) : St :=
+  match o with
+  | .rename .tmp .path => { apply data o s with link := none }
+  | .remove .path => { apply data o s with link := none }
+  | _ => apply data o s
+
 /-- Effect of an operation that fails, or during which the process is killed: nothing,
 except that a write may already have transferred its first `n` bytes. -/
 def applyFail (data : Bytes) (n : Nat) : Op → St → St
@@ -185,7 +206,7 @@ def Ev.op : Ev → Op
   | .fail o => o
 
 def applyEv (data : Bytes) (n : Nat) : Ev → St → St
-  | .ok o, s => apply data o s
+  | .ok o, s => applyL data o s
   | .fail o, s => applyFail data n o s
 
 /-- Run a whole trace; `pw i` = bytes transferred by event `i` if it is a failing write. -/
@@ -265,8 +286,9 @@ def mainOps : List Stmt → List Op
 def mainTrace (prog : List Stmt) : List Ev := (mainOps prog).map Ev.ok
 
 /-- Initial state: the file exists with the original content and permission bits; the
-temporary name may or may not be taken (`stale`); nothing open. -/
-def init (orig : Bytes) (mode : Nat) (stale : Option File) (umask : Nat) : St :=
-  { path := some ⟨orig, mode⟩, tmp := stale, fd := none, perm := none, umask := umask }
+temporary name may or may not be taken (`stale`); nothing open; `link = some m`: the path is a
+symbolic link (own mode `m`) to that file. -/
+def init (orig : Bytes) (mode : Nat) (stale : Option File) (umask : Nat) (link : Option Nat := none) : St :=
+  { path := some ⟨orig, mode⟩, tmp := stale, fd := none, perm := none, umask := umask, link := link }
 
 end GopModel.FS
